@@ -30,8 +30,14 @@ MANIFEST = {
             "exception outside {STIXError, ValueError, TypeError} can only originate at an unguarded site "
             "(nonfamily_only_at_unguarded_sites), hence family_only for parse, parse of a file, parse_observable, "
             "dict_to_stix2 and direct construction; each of the 14 sites refuted by a concrete input on the live class "
-            "tables; the evaluated (set-valued and structural) models cover every black box; a failed construction leaves "
-            "the store unchanged (store as explicit state). Class tables (library and after user registrations) and the "
+            "tables; the evaluated (set-valued and structural) models cover every black box. CLOSED-WORLD: in the model a "
+            "non-family class can only be produced at one of the enumerated sites, so family_only* / "
+            "nonfamily_only_at_unguarded_sites check the model's own labelling; that the code has no further site rests on "
+            "the correspondence run and the oracle, not on a theorem. The store/registry clause is DEFINITIONAL in the model "
+            "(store_add_one returns the old store next to an escaping exception; registries are read-only parameters) and "
+            "is checked on the code only by the oracle's deep snapshots. 'Terminates' and 'returns a fully validated "
+            "object' have NO Coq counterpart (Gallina is total, clean_struct takes fuel, acceptance of an invalid embedded "
+            "value is correspondence-derived). Class tables (library and after user registrations) and the "
             "library's exception message templates are REGENERATED from the code under check on every run (AST walk of "
             "every __init__/_check_object_constraints override and of stix2/exceptions.py; an unknown shape fails an "
             "obligation).",
